@@ -1444,7 +1444,7 @@ def check_lstsq(case, ctx):
     grad = float(np.linalg.norm(As.conj().T @ res))
     bound = 1e4 * eps * nA * (float(np.linalg.norm(res)) + nA * float(np.linalg.norm(got3s)) + float(np.linalg.norm(bs)))
     ctx.tally('gradient/bound x1e6', int(1e6 * grad / max(bound, 1e-300)))
-    ctx.require(grad <= bound, 'lstsq:not-exactly-the-finite-samples:' + cls,
+    ctx.within(grad, bound, 'lstsq:not-exactly-the-finite-samples:' + cls,
                 'lstsq on noisy data: |A^H (A c - d)| = %.3g over the %d finite samples, bound %.3g (cond %.3g): the result is not the '
                 'least-squares solution over exactly those samples' % (grad, int(valid.sum()), bound, cond))
     if cond < 1e3:
